@@ -3,12 +3,15 @@
      src/btree/interior.rs  InteriorNode::{from_page, slot_at, key_at, find_child}
      src/hnsw/storage.rs    HnswPageRef::{from_bytes, slot_count, free_space, get_slot, read_node_data},
                             SlotEntry::decode
-   Hand-transcribed with the checks the code ACTUALLY makes.  What the code gets wrong on corrupted
-   pages is modelled as it is:
-     * slot_at (leaf, interior) and get_slot (HNSW) compare the index with the u16 count stored in
-       the page and then slice `&self.data[offset..offset + SLOT]` without looking at the page size;
-     * LeafNode::value_at adds the decoded u64 value length to a usize without an overflow check;
-     * HnswPageRef::read_node_data slices `&self.data[offset..offset + size]` unchecked.
+   Hand-transcribed with the checks the code ACTUALLY makes, as of /repo commits c8c46cc (from_page ->
+   check_slot_geometry), 7292838 (value_at compares the u64 length with the room left) and 4d4f2e6
+   (HNSW get_slot / read_node_data use checked `get`):
+     * slot_at (leaf, interior) still compares the index only with the stored u16 count and then slices
+       `&self.data[offset..offset + SLOT]` unchecked - it is from_page that now rejects a page whose
+       announced slot array does not fit (slots_end <= free_start <= free_end <= PAGE_SIZE);
+     * HnswPageRef::from_bytes has no such check; its readers use `slice::get`.
+   Before those commits the accessors panicked on corrupted counts / lengths (findings F-C23-1..5, fixed;
+   their witnesses are re-run on every check).
    The slot geometry (LEAF_CONTENT_START, SLOT_SIZE, INTERIOR_SLOT_SIZE, HNSW_PAGE_HEADER_SIZE,
    HNSW_SLOT_SIZE and the three slot_offset functions) and decode_varint are regenerated from the
    source (Gen/LeafLayout.v, Gen/InteriorLayout.v, Gen/HnswLayout.v, Gen/Varint.v).
@@ -25,13 +28,26 @@ Definition prefix_of := LeafSearch.prefix_of.
 Definition lex_cmp := LeafSearch.lex_cmp.
 
 (* ================================================================== leaf pages *)
-(* LeafNode::from_page: ensure!(len == PAGE_SIZE); PageHeader::from_bytes(data)?; ensure!(type == BTreeLeaf) *)
+(* HnswPageRef::from_bytes: ensure!(len == PAGE_SIZE); PageHeader::from_bytes(data)?; ensure!(type == want) *)
 Definition node_from_page (want : Z) (d : list Z) : res unit :=
   if blen d =? PAGE_SIZE then
     if blen d <? PH_SIZE then Err
     else if ptype (bidx d 0) =? want then Ok tt else Err
   else Err.
-Definition leaf_from_page := node_from_page PT_LEAF.
+
+(* leaf.rs check_slot_geometry(header, content_start, slot_size):
+   slots_end = content_start + cell_count * slot_size; ensure!(slots_end <= free_start <= free_end <= PAGE_SIZE) *)
+Definition slot_geometry_ok (d : list Z) (content_start slot_size : Z) : bool :=
+  let slots_end := content_start + le d 2 2 * slot_size in
+  let fs := le d 4 2 in
+  let fe := le d 6 2 in
+  (slots_end <=? fs) && (fs <=? fe) && (fe <=? PAGE_SIZE).
+
+(* LeafNode / InteriorNode::from_page: the three checks above, then check_slot_geometry(..)? *)
+Definition btree_from_page (want content_start slot_size : Z) (d : list Z) : res unit :=
+  _ <- node_from_page want d ;;
+  if slot_geometry_ok d content_start slot_size then Ok tt else Err.
+Definition leaf_from_page := btree_from_page PT_LEAF LEAF_CONTENT_START SLOT_SIZE.
 
 (* a leaf slot: (prefix bytes, cell offset, key length) *)
 Definition leaf_slot_at (d : list Z) (index : Z) : res (list Z * Z * Z) :=
@@ -64,9 +80,8 @@ Definition leaf_value_at (d : list Z) (index : Z) : res (list Z) :=
     vn <- varint_at d vs ;;
     let '(vlen, n) := vn in
     let vds := vs + n in
-    if in_u 64 (vds + vlen) then                       (* value_data_start + value_len as usize *)
-      if vds + vlen <=? PAGE_SIZE then sub d vds (vds + vlen) else Err
-    else Panic
+    if PAGE_SIZE <? vds then Panic                     (* PAGE_SIZE - value_data_start: usize subtraction *)
+    else if vlen <=? PAGE_SIZE - vds then sub d vds (vds + vlen) else Err
   else Err.
 
 Definition leaf_value_len_at (d : list Z) (index : Z) : res Z :=
@@ -76,7 +91,7 @@ Definition leaf_value_len_at (d : list Z) (index : Z) : res Z :=
   if vs <? PAGE_SIZE then vn <- varint_at d vs ;; Ok (fst vn) else Err.
 
 (* ================================================================== interior pages *)
-Definition interior_from_page := node_from_page PT_INTERIOR.
+Definition interior_from_page := btree_from_page PT_INTERIOR INTERIOR_CONTENT_START INTERIOR_SLOT_SIZE.
 
 (* an interior slot: (prefix bytes, child page, cell offset, key length) *)
 Definition interior_slot_at (d : list Z) (index : Z) : res (list Z * Z * Z * Z) :=
@@ -150,52 +165,32 @@ Definition hnsw_get_slot (d : list Z) (si : Z) : res (option (Z * Z * Z)) :=
   else
     if hnsw_slot_offset_safe si then
       let off := hnsw_slot_offset si in
-      b <- sub d off (off + HNSW_SLOT_SIZE) ;;
-      Ok (Some (slot_decode b))
+      (* self.data.get(offset..offset + HNSW_SLOT_SIZE)? : None when the range is not inside the page *)
+      if bslice_ok d off (off + HNSW_SLOT_SIZE) then Ok (Some (slot_decode (bslice d off (off + HNSW_SLOT_SIZE))))
+      else Ok None
     else Panic.
 
 Definition hnsw_read_node_data (d : list Z) (si : Z) : res (list Z) :=
   o <- hnsw_get_slot d si ;;
   match o with
   | None => Err
-  | Some (off, st, sz) => if st =? 1 then sub d off (off + sz) else Err
+  | Some (off, st, sz) =>
+      (* self.data.get(offset..offset + size).ok_or_else(..) *)
+      if st =? 1 then (if bslice_ok d off (off + sz) then Ok (bslice d off (off + sz)) else Err) else Err
   end.
 
-(* ================================================================== where the accessors go wrong *)
-(* Decidable predicates on the INPUT (page bytes, index): exactly the inputs on which the accessors take
-   their Panic branch (Proof/PageAccess*.v prove the equivalences for pages accepted by from_page).
-   They are the classes of the recorded findings F-C23-1 .. F-C23-5 (Corr/C23.v dec_class). *)
-(* the slot announced by the stored cell_count lies (partly) beyond the end of the page *)
+(* ================================================================== the former finding classes *)
+(* The inputs on which slot_at / key_at / value_len_at take their Panic branch (kept for the historical
+   lemmas of Proof/PageAccess*.v): the slot announced by the stored cell_count lies beyond the page.
+   Since c8c46cc no page accepted by from_page has such a slot. *)
 Definition leaf_slot_oob (d : list Z) (i : Z) : bool :=
   match cell_count d with
   | Ok cc => (i <? cc) && (PAGE_SIZE <? leaf_slot_offset i + SLOT_SIZE)
   | _ => false
   end.
-(* value_data_start + value_len does not fit a usize *)
-Definition leaf_value_ovf (d : list Z) (i : Z) : bool :=
-  match leaf_slot_at d i with
-  | Ok (_, co, kl) =>
-      (co + kl <? PAGE_SIZE) &&
-      match varint_at d (co + kl) with
-      | Ok (vlen, n) => negb (in_u 64 (co + kl + n + vlen))
-      | _ => false
-      end
-  | _ => false
-  end.
 Definition interior_slot_oob (d : list Z) (i : Z) : bool :=
   match cell_count d with
   | Ok cc => (i <? cc) && (PAGE_SIZE <? interior_slot_offset i + INTERIOR_SLOT_SIZE)
-  | _ => false
-  end.
-Definition hnsw_slot_oob (d : list Z) (i : Z) : bool :=
-  match hnsw_slot_count d with
-  | Ok sc => (i <? sc) && (PAGE_SIZE <? hnsw_slot_offset i + HNSW_SLOT_SIZE)
-  | _ => false
-  end.
-(* an active slot entry whose offset + size points beyond the page *)
-Definition hnsw_node_oob (d : list Z) (i : Z) : bool :=
-  match hnsw_get_slot d i with
-  | Ok (Some (off, st, sz)) => (st =? 1) && (PAGE_SIZE <? off + sz)
   | _ => false
   end.
 
